@@ -7,11 +7,15 @@ import (
 	"os/exec"
 	"path/filepath"
 	"runtime"
+	"strconv"
 	"sync"
 )
 
 // Workers is the number of worker processes to use.
 func Workers() int {
+	if v, err := strconv.Atoi(os.Getenv("VERIF_WORKERS")); err == nil && v > 0 {
+		return v // development aid on a shared machine
+	}
 	n := runtime.NumCPU()
 	if n > 16 {
 		n = 16
